@@ -14,18 +14,21 @@ Observable of a "graph" case, per presentation (base + alts), compared with the 
             serialisation of the re-canonicalised canonical graph (what CanonicalGraph hashes)
   wl/morgan: canonical graph + serialisation given the colour / label RANKS of the implementation (oracle input)
   nauty   : canonical permutation, best label string, EVERY _refine input/output (method wrapped), the list of
-            minimal-label leaves, canonical graph, serialisation, serialisation after re-canonicalisation
+            minimal-label leaves, canonical graph, serialisation, serialisation after re-canonicalisation;
+            graph_signature label, order-only permutation, orbits, canonical_form(max_depth = 0, 1, 2, N) of the base presentation
+  all     : the canonical node ORDER of generic / wl / morgan (old ids in the order of the new ids; nodes tagged before the call)
 plus the equality pattern of the signatures (digests) of all presentations/others against the model's
 equality pattern of serialisation strings.
 """
 import itertools
+import random as random_module
 
 from ..coqrun import cN, cZ, cbool, clist, cpair, copt
 from ..tok import S
 
 PID = "C08"
 COQ_HEADER = ("From Coq Require Import List NArith ZArith.\nImport ListNotations.\n"
-              "From SK Require Import lib.Tok lib.LGraph model.C08_Model model.C08_Digraph.\n")
+              "From SK Require Import lib.Tok lib.LGraph model.C08_Model model.C08_Digraph model.C08_Sel model.C08_Obs.\n")
 SHARD = 60
 BATCH_MODEL_MAX = 60
 BACKENDS = ["generic", "wl", "morgan", "nauty"]
@@ -76,9 +79,12 @@ TESTED_NOT_PROVED = ["history / provenance independence: in the model a graph IS
                      "SynRule.__eq__ itself is evaluated against the model on rules assembled from fragment graphs (constructor "
                      "bypassed), real rules built from reaction SMILES are checked by the oracle only (45 rule cases)",
                      "whole-family soundness batches with more than 60 graphs (all 4-node classes) are oracle-only",
-                     "NautyCanonicalizer with other node_attrs / edge_attrs selections than GraphCanonicaliser passes, canonical_form's "
-                     "orbit output and max_depth, GraphCanonicaliser options (wl_iterations, morgan_radius, node_attrs, custom sort keys), the twin "
+                     "NautyCanonicalizer with other node_attrs / edge_attrs selections than GraphCanonicaliser passes (edge_attrs=[order] is "
+                     "modelled as the search on the graph without standard_order: the permutation is compared on every run), "
+                     "GraphCanonicaliser options (wl_iterations, morgan_radius, node_attrs, custom sort keys), the twin "
                      "module synkit.Graph.Canon.canon_graph, canonicalise_graphs, CanonicalRule, SynRule.from_gml / canon=False: oracle only",
+                     "graphs with node attributes absent on some nodes and graphs with string node ids: oracle only (the model's nodes carry "
+                     "all four attributes and numeric ids); max_depth and the SynRule verdicts on DiGraph inputs: oracle only",
                      "hash() consistency of the wrappers (equal objects have equal hashes): oracle only"]
 
 
@@ -415,8 +421,65 @@ def impl(case):
             row.append(bool(cg0 == CanonicalGraph(H, c)))
     obs = [[[[[[out, pat], vo], _rule_vo(case)]] + _graph_sig_obs(case), _order_only_perms(case)], _orbits_obs(case)]
     if case["g"].get("directed"):
-        return obs
-    return [obs, _max_depth_obs(case)]
+        return [obs, _orders_obs(case)]
+    return [[[obs, _max_depth_obs(case)], _orders_obs(case)], _sel_obs(case)]
+
+
+def _sel_cfgs(case):
+    """The attribute selections of NautyCanonicalizer run against the model (coq/model/C08_Sel.v): on the cases that also get the
+    multi-step oracle clauses; a selection that forgets node attributes is skipped on dense graphs (thousands of leaves)."""
+    deep = case.get("sel", case.get("deep", case.get("sub") not in ("neighbour", "iso3", "iso4")))
+    if not deep or len(case["g"]["nodes"]) > 12 or case["g"].get("directed"):
+        return []
+    # (all four node attributes, [order]) is in the model of every case already (run_case5: the search on strip_std g)
+    return [(na, ea) for na, ea in NAUTY_CONFIGS[1:] if not (_dense(case["g"]) and (not na or len(na) < 4))]
+
+
+def _sel_graphs(case):
+    ren = [a["g"] for a in case.get("alts", []) if not a["same_ids"]][:1]
+    return [case["g"]] + ren, list(case.get("others", []))[:1]
+
+
+def _sel_obs(case):
+    """Per selection: per graph (base presentation, first renumbered presentation) the canonical permutation, the best label and
+    the reported permutations of the real search; the equality pattern of graph_signature over these graphs and one mutant."""
+    from synkit.Graph.Canon.nauty import NautyCanonicalizer
+    gs, others = _sel_graphs(case)
+    out = []
+    for na, ea in _sel_cfgs(case):
+        nc = NautyCanonicalizer(node_attrs=na, edge_attrs=ea)
+        rows = []
+        for g in gs:
+            G = _nx(g)
+            best, auts = {"label": None, "perm": None}, []
+            nc._search(G, nc._initial_partition(G), [], best, auts)
+            rows.append([list(best["perm"] or []), best["label"] or "", [list(a) for a in auts]])
+        out.append([rows, _pattern([nc.graph_signature(_nx(g)) for g in gs + others])])
+    return out
+
+
+_NSEL = {"element": "SEl", "aromatic": "SAr", "charge": "SCh", "hcount": "SHc"}
+_ESEL = {"order": "SOrd", "standard_order": "SStd"}
+
+
+def _ccfgs(cfgs):
+    return clist(["(%s, %s)" % (clist([_NSEL[a] for a in (na or [])]), clist([_ESEL[a] for a in (ea or [])])) for na, ea in cfgs])
+
+
+def _orders_obs(case):
+    """The canonical node ORDER of the attribute-sort, wl and morgan back-ends per presentation (old ids in the order of the
+    new ids 1..N): every node is tagged with its old id in an uncovered attribute, the tags are read back from the twin."""
+    out = []
+    for p in _present(case):
+        G = _nx(p)
+        for n in G.nodes:
+            G.nodes[n]["_c08_orig"] = n
+        row = []
+        for be in ("generic", "wl", "morgan"):
+            cg = _canoniser(be).make_canonical_graph(G)
+            row.append([cg.nodes[k]["_c08_orig"] for k in sorted(cg.nodes)])
+        out.append(row)
+    return out
 
 
 def _mds(case):
@@ -558,9 +621,13 @@ def coq_case(case):
         items.append("(%s, %s, %s)" % (_cgraph(p), _cranks(_wl_ranks(G), p), _cranks(_morgan_ranks(G), p)))
     if kinds == {True}:
         # networkx.DiGraph inputs: the directed model (coq/model/C08_Digraph.v), same observable shape
-        return "drun_case %s %s" % (clist(items), clist([_cgraph(h) for h in case.get("others", [])]))
-    return "run_case7 %s %s %s %s" % (clist(items), clist([_cgraph(h) for h in case.get("others", [])]),
-                                      clist([_cgraph(h) for h in _rule_hs(case)]), clist(["%d%%nat" % m for m in _mds(case)]))
+        return "drun_case8 %s %s" % (clist(items), clist([_cgraph(h) for h in case.get("others", [])]))
+    sgs, sothers = _sel_graphs(case)
+    if not _sel_cfgs(case):
+        sgs, sothers = [], []
+    return "run_case9 %s %s %s %s %s %s %s" % (clist(items), clist([_cgraph(h) for h in case.get("others", [])]),
+                                               clist([_cgraph(h) for h in _rule_hs(case)]), clist(["%d%%nat" % m for m in _mds(case)]),
+                                               _ccfgs(_sel_cfgs(case)), clist([_cgraph(h) for h in sgs]), clist([_cgraph(h) for h in sothers]))
 
 
 # ------------------------------------------------------------------ property oracle
@@ -653,7 +720,61 @@ def _oracle_graph(case):
         _oracle_nauty_direct(case, fails)
     if len(fails) < 4 and deep and len(case["g"]["nodes"]) <= 12:
         _oracle_surface(case, fails)
+    if len(fails) < 4 and case.get("name") in XPROC_CASES:
+        _oracle_other_process(case, fails)
     return fails[:4]
+
+
+# the signature is a stored key ("stable digest"): it must not change from one interpreter run to the next.  Inside one process
+# nothing can show a dependence on the per-process string-hash salt, so a few cases with several elements are recomputed in fresh
+# interpreters started with other PYTHONHASHSEED values.
+XPROC_CASES = {"size/chain24", "digraph/dipath12-ids-95", "family/C6-two-N", "degenerate/element-star-digits", "degenerate/negative-large"}
+_XPROC_SCRIPT = """
+import json, sys, logging, warnings
+warnings.filterwarnings("ignore"); logging.disable(logging.CRITICAL)
+from harness.props.C08 import _nx, _canoniser, BACKENDS
+g = json.load(sys.stdin)
+out = []
+for be in BACKENDS:
+    c = _canoniser(be)
+    G = _nx(g)
+    cg = c.make_canonical_graph(G)
+    out.append([c.canonical_signature(G), sorted([n, sorted((k, repr(v)) for k, v in d.items())] for n, d in cg.nodes(data=True))])
+out.append(_canoniser("nauty").nauty.graph_signature(_nx(g)))
+json.dump(out, sys.stdout)
+"""
+
+
+def _oracle_other_process(case, fails):
+    import json
+    import os
+    import subprocess
+    import sys
+    g = case["g"]
+    here = []
+    for be in BACKENDS:
+        c = _canoniser(be)
+        G = _nx(g)
+        cg = c.make_canonical_graph(G)
+        here.append([c.canonical_signature(G), sorted([n, sorted([k, repr(v)] for k, v in d.items())] for n, d in cg.nodes(data=True))])
+    here.append(_canoniser("nauty").nauty.graph_signature(_nx(g)))
+    for seed in ("1", "2"):
+        env = dict(os.environ, PYTHONHASHSEED=seed)
+        r = subprocess.run([sys.executable, "-c", _XPROC_SCRIPT], input=json.dumps(g), env=env, stdout=subprocess.PIPE,
+                           stderr=subprocess.PIPE, text=True, timeout=600)
+        if r.returncode != 0:
+            fails.append(_fail("sig-function/other-process", "fresh interpreter (PYTHONHASHSEED=%s) failed: %s" % (seed, r.stderr[-300:])))
+            return
+        there = json.loads(r.stdout)
+        for be, a, b in zip(BACKENDS + ["graph_signature"], here, there):
+            if a != b:
+                fails.append(_fail("sig-function/%s" % be, "another interpreter run (PYTHONHASHSEED=%s) gives another signature / canonical "
+                                   "numbering: %r vs %r; input %r" % (seed, a if isinstance(a, str) else a[0], b if isinstance(b, str) else b[0], g)))
+                return
+
+
+def _dense(g):
+    return len(g["nodes"]) > 6 and len(g["edges"]) > 2 * len(g["nodes"])
 
 
 NAUTY_CONFIGS = [
@@ -680,6 +801,8 @@ def _oracle_nauty_direct(case, fails):
     from synkit.Graph.Canon.nauty import NautyCanonicalizer
     pres = [case["g"]] + [a["g"] for a in case.get("alts", [])]
     for na, ea in NAUTY_CONFIGS:
+        if _dense(case["g"]) and (not na or len(na) < 4):
+            continue        # a selection that forgets node attributes makes a dense graph maximally symmetric: thousands of leaves
         nc = NautyCanonicalizer(node_attrs=na, edge_attrs=ea)
         P0 = _nx(pres[0])
         v0 = _sel_views(P0, na, ea)
@@ -764,12 +887,20 @@ def _oracle_surface(case, fails):
                 or sg.number_of_nodes() != n or sg.raw is not P0 or _abstract(sg.canonical) != _abstract(c1.make_canonical_graph(P0)) \
                 or (sg == P0) or (sg == 7):
             fails.append(_fail("value-objects", "SynGraph views / canon=False / comparison with foreign objects (%s); input %r" % (be, pres[0])))
+        cw = M1.CanonicalGraph(P0, c1)
+        if (cw == P0) or (cw == 7) or (cw == sg) or (sg == cw) or (cw != cw) or hash(cw) != hash(M1.CanonicalGraph(_nx(pres[0]), c1)) \
+                or cw.original_graph is not P0:
+            fails.append(_fail("value-objects", "CanonicalGraph: comparison with foreign objects / hash / original_graph (%s); input %r" % (be, pres[0])))
     # options: attribute selections in another order or reduced (positional backend is keyword-only by design)
     for be, kw in (("nauty", dict(node_attrs=["hcount", "charge", "aromatic", "element"])), ("nauty", dict(node_attrs=["element"])),
                    ("wl", dict(node_attrs=["charge", "element", "hcount", "aromatic"], wl_iterations=1)), ("wl", dict(wl_iterations=5)),
                    ("morgan", dict(morgan_radius=1)), ("morgan", dict(node_attrs=["element", "hcount"], morgan_radius=5)),
                    ("generic", dict(node_sort_key=lambda n, d: (d.get("hcount", 0), d.get("element", "")),
                                     edge_sort_key=lambda u, v, d: (tuple(sorted((u, v))), repr(d.get("order")))))):
+        if be == "nauty" and len(kw["node_attrs"]) < 4 and _dense(case["g"]):
+            continue
+        if be == "morgan" and kw.get("morgan_radius", 3) > 3 and len(case["g"]["edges"]) > 2 * len(case["g"]["nodes"]):
+            continue        # the prime-product labels of canon_morgan grow like degree ** radius digits: seconds per call on K7
         c = M1.GraphCanonicaliser(backend=be, **kw)
         cg = c.make_canonical_graph(P0)
         if sorted(cg.nodes) != list(range(1, n + 1)) or _iso(_full(P0), _full(cg)) is None:
@@ -1099,7 +1230,7 @@ def distribution(cases, obss):
         if _n_aut_gt1_or_tied(c["g"]):
             tied += 1
         try:
-            for row in (o if c["g"].get("directed") else o[0])[0][0][0][0][0][0]:
+            for row in (o[0] if c["g"].get("directed") else o[0][0][0])[0][0][0][0][0][0]:
                 refines += len(row[3][2])
                 leaves += len(row[3][3])
                 if len(row[3][3]) > 1:
@@ -1113,7 +1244,7 @@ def distribution(cases, obss):
     md = {"abandoned_before_any_leaf": 0, "leaf_and_early_stop": 0, "complete": 0}
     for c, o in zip(cases, obss):
         if c["kind"] == "graph" and not c["g"].get("directed") and isinstance(o, list) and len(o) == 2:
-            for r in o[1]:
+            for r in o[0][0][1]:
                 md["abandoned_before_any_leaf" if not r else ("leaf_and_early_stop" if r[0][1] else "complete")] += 1
     directed = sum(1 for c in cases if c["kind"] == "graph" and c["g"].get("directed"))
     antipar = sum(1 for c in cases if c["kind"] == "graph" and c["g"].get("directed")
@@ -1423,6 +1554,56 @@ def _missing_attr_cases(rng):
     return out
 
 
+def _string_id_cases(rng):
+    """Node ids that are strings (networkx accepts any hashable; ids only have to be mutually comparable): outside the model
+    domain (ids are numbers there), oracle only, without the multi-step clauses (they add integer ids)."""
+    def g(ids, els, edges):
+        return {"nodes": [[i, _node(e)] for i, e in zip(ids, els)], "edges": [[u, v, {"order": float(o)}] for u, v, o in edges]}
+    gs = [
+        ("path", g(["a", "b", "c"], "CCO", [("a", "b", 1), ("b", "c", 1)])),
+        ("ring-b10-b9", g(["b10", "b9", "b1", "a2"], "CCCC", [("b10", "b9", 1), ("b9", "b1", 2), ("b1", "a2", 1), ("a2", "b10", 2)])),
+        ("star", g(["N", "h1", "h2", "h3"], "NCCC", [("N", "h1", 1), ("N", "h2", 1), ("N", "h3", 1)])),
+        ("empty-string-id", g(["", "x"], "CO", [("", "x", 2)])),
+    ]
+    out = []
+    for nm, x in gs:
+        c = _graph_case("strids", x, rng, nalts=3, nothers=1, name="strids/" + nm)
+        c["oracle_only"] = True
+        c["deep"] = False
+        out.append(c)
+    d = g(["a", "b", "c"], "CCC", [("a", "b", 1), ("b", "a", 1), ("b", "c", 1)])
+    d["directed"] = True
+    c = _graph_case("strids", d, rng, nalts=3, nothers=1, name="strids/digraph")
+    c["oracle_only"] = True
+    c["deep"] = False
+    out.append(c)
+    return out
+
+
+def _allperm_cases(rng, tier):
+    """The property's quantifier: ALL node permutations of every graph of a small scope (oracle only: the exact back-end must
+    give every renumbering the same canonical graph and signature; all back-ends: faithful, onto 1..N).
+    quick: the 11 graphs on 4 equal atoms with single bonds x 24 permutations; thorough: 4 atoms with bond orders {1, 2} x 24 and
+    the 34 graphs on 5 equal atoms x 120 permutations (24 per case)."""
+    from ..gen import graphs as GG
+    C = [{"element": "C", "charge": 0, "hcount": 0}]
+    scopes = [(4, [{"order": 1}])] if tier == "quick" else [(4, [{"order": 1}, {"order": 2}]), (5, [{"order": 1}])]
+    out = []
+    for n, el in scopes:
+        perms = list(itertools.permutations(range(1, n + 1)))[1:]
+        for k, g in enumerate(GG.iso_classes(n, C, el)):
+            g = _norm_graph(g, amap=False)
+            for lo in range(0, len(perms), 24):
+                alts = []
+                for pm in perms[lo:lo + 24]:
+                    m = dict(zip(range(1, n + 1), pm))
+                    h = {"nodes": [[m[i], dict(a)] for i, a in g["nodes"]], "edges": [[m[u], m[v], dict(a)] for u, v, a in g["edges"]]}
+                    alts.append(dict(g=_reinsert(h, rng), same_ids=False, amap="keep"))
+                out.append(dict(kind="graph", sub="allperm", g=g, alts=alts, others=[], oracle_only=True, deep=False,
+                                name="allperm/n%d-%d-%d" % (n, k, lo)))
+    return out
+
+
 def _size_cases(rng, tier):
     """Two-digit node counts and ids: random trees / sparse graphs with 10..16 nodes, one chain of 40 atoms."""
     from ..gen import graphs as GG
@@ -1508,6 +1689,13 @@ def _digraph_cases(rng, tier):
     g = _dg("CCC", [(1, 2), (2, 1), (2, 3)])
     g["edges"][0][2]["standard_order"] = 0.0
     named.append(("antiparallel-std-0.0-vs-absent", g))
+    # two-digit node counts and ids on digraphs: a directed path of 12 atoms with ids 95..106, a sparse random digraph on 11
+    ids = list(range(95, 107))
+    named.append(("dipath12-ids-95", _dg(["CNO"[i % 3] for i in range(12)], [(ids[i], ids[i + 1]) for i in range(11)], ids=ids)))
+    r11 = random_module.Random(11)
+    ids = r11.sample(range(3, 40), 11)
+    named.append(("sparse11", _dg([r11.choice("CCCNO") for _ in ids],
+                                  sorted({(u, v) for u in ids for v in ids if u != v and r11.random() < 0.12}), ids=ids)))
     for nm, g in named:
         out.append(_graph_case("digraph", g, rng, nalts=3, nothers=2, name="digraph/" + nm))
     for i in range(40 if tier == "quick" else 600):
@@ -1614,7 +1802,7 @@ def gen_cases(tier, rng):
             cases.append(_graph_case("iso%d" % n, g, rng, nalts=2 if tier == "quick" else 4, nothers=1))
     four = classes[4]
     if tier == "quick":
-        pick = rng.sample(range(len(four)), 500)
+        pick = rng.sample(range(len(four)), 400)      # round 5: 500 -> 400 to pay for the digraph / selection / max_depth observables
     else:
         pick = range(len(four))
     for i in pick:
@@ -1631,7 +1819,7 @@ def gen_cases(tier, rng):
     for nm, g in _families():
         fam.append(_graph_case("family", g, rng, nalts=3 if tier == "quick" else 6, nothers=1, name="family/" + nm))
     # seeded random graphs
-    nrand = 250 if tier == "quick" else 2000
+    nrand = 230 if tier == "quick" else 2000
     for _ in range(nrand):
         cases.append(_graph_case("random", _random_graph(rng, 9), rng, nalts=2, nothers=2))
     if tier == "thorough":
@@ -1644,13 +1832,15 @@ def gen_cases(tier, rng):
         gs = [g] + [_reinsert(_renumber(g, rng, "keep"), rng) for _ in range(2)] + [_mutant(g, rng) for _ in range(4)]
         cases.append(dict(kind="batch", sub="batch-random", graphs=gs, distinct_classes=False))
     cases += _rule_cases(rng, 30 if tier == "quick" else 66)
-    cases += _its_cases(rng, tier) + _degenerate_cases(rng) + _size_cases(rng, tier) + _digraph_cases(rng, tier) + _missing_attr_cases(rng)
+    cases += _its_cases(rng, tier) + _degenerate_cases(rng) + _size_cases(rng, tier) + _digraph_cases(rng, tier) + _missing_attr_cases(rng) + _string_id_cases(rng) + _allperm_cases(rng, tier)
     # the symmetric families are the expensive cases (cube, Petersen: hundreds of leaves and _refine calls each):
     # spread them over the shards instead of putting them into one
     k3 = 0
     for c in cases:
         if c.get("sub") in ("iso3", "iso4", "random"):
-            c["deep"] = (k3 % ((2 if c["sub"] == "random" else 4) * (1 if tier == "quick" else 3)) == 0)
+            period = (2 if c["sub"] == "random" else 4) * (1 if tier == "quick" else 3)
+            c["deep"] = (k3 % period == 0)
+            c["sel"] = (k3 % (2 * period) == 0)       # attribute selections of NautyCanonicalizer against the model: half of the deep cases
             k3 += 1
     step = max(1, len(cases) // (len(fam) + 1))
     for k, c in enumerate(fam):
@@ -1663,7 +1853,8 @@ LEVEL_TEXT = ("Machine-checked proof (Coq) over an executable model of the four 
               "back-ends), signature = function of the graph (all back-ends), equal signatures => isomorphic (all back-ends), exact back-end "
               "invariant under any renumbering / re-ordering / re-orientation, wrappers equal exactly for isomorphic content - all for "
               "every well-formed graph incl. ITS graphs with (before, after) order pairs, no size bound; NautyCanonicalizer.graph_signature exact; the "
-              "reported automorphisms sound and complete; the same clauses for networkx.DiGraph inputs (direction of every arc covered: "
+              "reported automorphisms sound and complete, compute_orbits = the orbits of the automorphism group; canonical_form(max_depth) "
+              "exact when deep enough and always a faithful relabelling; the same clauses for networkx.DiGraph inputs (direction of every arc covered: "
               "signature a function of the digraph, equal signatures => isomorphic as digraphs, exact back-end invariant on digraphs).  "
               "The model is tied to the Python code on every run by comparing canonical permutation, "
               "best label, every _refine call, canonical graphs, serialisation strings, digest equality patterns and wrapper verdicts on "
